@@ -40,6 +40,11 @@ type C20Case struct {
 	Running string   `json:"running"` // dev | v1.5.0 | v2.0.0 | none
 	Rels    []C20Rel `json:"releases"`
 	Fault   string   `json:"fault,omitempty"`
+	// TwoPhase: a successful update to a real executable first, then a second invocation against a
+	// catalogue whose newest release cannot be installed (Second says why): the executable must stay
+	// what the first update installed
+	TwoPhase bool   `json:"two_phase,omitempty"`
+	Second   string `json:"second,omitempty"` // wrong | missing-entry | corrupt | asset-500 | checksum-404
 }
 
 const checksumName = "crs-toolchain-checksums.txt"
@@ -58,6 +63,10 @@ func server() (*relsrv.Server, error) {
 var c20Tags = []string{"v1.0.0", "v1.5.0", "v1.5.1", "v2.0.0", "v2.1.0-rc1", "v2.1.0", "v3.0.0", "1.6.0", "release-2.2.0", "v1.2", "nightly", "v10.0.0", "v2.0.1-beta"}
 
 func genC20(t *rapid.T) C20Case {
+	if rapid.IntRange(0, 11).Draw(t, "twophase") == 0 {
+		return C20Case{Running: rapid.SampledFrom([]string{"dev", "v1.5.0", "none"}).Draw(t, "running2"), TwoPhase: true,
+			Second: rapid.SampledFrom([]string{"wrong", "missing-entry", "corrupt", "asset-500", "checksum-404"}).Draw(t, "second")}
+	}
 	c := C20Case{Running: rapid.SampledFrom([]string{"dev", "dev", "v1.5.0", "v1.5.0", "v2.0.0", "none", "v2.1.0-rc1", "v2.1.0-rc1"}).Draw(t, "running")}
 	n := rapid.SampledFrom([]int{0, 1, 1, 2, 2, 2, 3, 3, 4, 5}).Draw(t, "nrels")
 	tags := rapid.Permutation(c20Tags).Draw(t, "tags")[:n]
@@ -286,7 +295,103 @@ func fileSha(p string) string {
 	return hex.EncodeToString(h.Sum(nil))
 }
 
+func checkC20TwoPhase(c C20Case) Outcome {
+	out := Outcome{Labels: []string{"two-phase", "second:" + c.Second, "running:" + c.Running}, Detail: map[string]any{"case": c}}
+	srv, err := server()
+	if err != nil {
+		out.HarnessError = "cannot start the fake release service: " + err.Error()
+		return out
+	}
+	realExe, err := os.ReadFile(runningBinary("v2.0.0"))
+	if err != nil {
+		out.HarnessError = "cannot read the v2.0.0 binary: " + err.Error()
+		return out
+	}
+	good := mkTarGz("crs-toolchain", realExe)
+	sum := func(b []byte) string { h := sha256.Sum256(b); return hex.EncodeToString(h[:]) }
+	name1 := "crs-toolchain_1.9.0_linux_amd64.tar.gz"
+	rel1 := relsrv.Release{ID: 1, Tag: "v1.9.0", Assets: []relsrv.Asset{{ID: 11, Name: name1, Body: good}, {ID: 12, Name: checksumName, Body: []byte(sum(good) + "  " + name1 + "\n")}}}
+	srv.Set(relsrv.Catalogue{Releases: []relsrv.Release{rel1}})
+	sb := cli.NewSandbox("c20b")
+	defer sb.Close()
+	_ = os.MkdirAll(sb.Path("bin"), 0o755)
+	_ = os.MkdirAll(sb.Path("certs"), 0o755)
+	exe := sb.Path("bin/crs-toolchain")
+	b0, err := os.ReadFile(runningBinary(c.Running))
+	if err != nil {
+		out.HarnessError = err.Error()
+		return out
+	}
+	_ = os.WriteFile(exe, b0, 0o755)
+	_ = os.WriteFile(sb.Path("ca.pem"), srv.CAPEM(), 0o644)
+	env := []string{"HTTPS_PROXY=http://" + srv.Addr(), "https_proxy=http://" + srv.Addr(), "HTTP_PROXY=http://" + srv.Addr(),
+		"SSL_CERT_FILE=" + sb.Path("ca.pem"), "SSL_CERT_DIR=" + sb.Path("certs"), "NO_PROXY=", "GITHUB_TOKEN="}
+	r1 := cli.Run(cli.Opt{Bin: exe, Dir: sb.Root, Timeout: 90 * time.Second, Env: env}, "self-update")
+	after1 := fileSha(exe)
+	out.Detail["first_exit"], out.Detail["first_stderr"] = r1.Exit, tailLines(r1.Stderr, 4)
+	if r1.Exit != 0 || after1 != sum(realExe) {
+		out.Violation = fmt.Sprintf("the first update (to a verified newer release) did not install it (exit %d)", r1.Exit)
+		return out
+	}
+	// second catalogue: a still newer release that cannot be installed
+	payload2 := []byte("#!/bin/sh\necho tampered\n")
+	body2 := mkTarGz("crs-toolchain", payload2)
+	name2 := "crs-toolchain_9.0.0_linux_amd64.tar.gz"
+	sumLine := sum(body2) + "  " + name2 + "\n"
+	fault := ""
+	switch c.Second {
+	case "wrong":
+		sumLine = strings.Repeat("0", 64) + "  " + name2 + "\n"
+	case "missing-entry":
+		sumLine = sum(body2) + "  some-other-file.tar.gz\n"
+	case "corrupt":
+		body2 = append([]byte("garbage"), body2[len(body2)/2:]...)
+		sumLine = sum(body2) + "  " + name2 + "\n"
+	case "asset-500":
+		fault = "asset-500"
+	case "checksum-404":
+		fault = "checksum-404"
+	}
+	rel2 := relsrv.Release{ID: 2, Tag: "v9.0.0", Assets: []relsrv.Asset{{ID: 21, Name: name2, Body: body2}, {ID: 22, Name: checksumName, Body: []byte(sumLine)}}}
+	srv.Set(relsrv.Catalogue{Releases: []relsrv.Release{rel1, rel2}, Fault: fault})
+	r2 := cli.Run(cli.Opt{Bin: exe, Dir: sb.Root, Timeout: 90 * time.Second, Env: env}, "self-update")
+	after2 := fileSha(exe)
+	out.Detail["second_exit"], out.Detail["second_stderr"], out.Detail["requests"] = r2.Exit, tailLines(r2.Stderr, 4), srv.Requests()
+	if after2 != after1 {
+		what := "unknown bytes"
+		switch after2 {
+		case sum(b0):
+			what = "the executable that was running before the first update (a stale backup was restored)"
+		case sum(payload2):
+			what = "the unverified payload of the newest release"
+		}
+		out.Violation = "a failing update changed the executable: it now holds " + what
+		return out
+	}
+	if r2.Exit == 0 {
+		out.Violation = "the newest release cannot be installed, the executable is unchanged, but the command exits 0"
+		return out
+	}
+	// nothing else may be left behind that a later run could pick up... (recorded, not judged)
+	left := []string{}
+	if ents, err := os.ReadDir(sb.Path("bin")); err == nil {
+		for _, e := range ents {
+			if e.Name() != "crs-toolchain" {
+				left = append(left, e.Name())
+			}
+		}
+	}
+	out.Detail["left_in_bin"] = left
+	out.NonTrivial = true
+	out.Key = fmt.Sprintf("%v", c)
+	out.Sample = map[string]any{"two_phase": true, "running": c.Running, "second_release_problem": c.Second, "first_exit": r1.Exit, "second_exit": r2.Exit, "left_in_bin": left}
+	return out
+}
+
 func checkC20(c C20Case) Outcome {
+	if c.TwoPhase {
+		return checkC20TwoPhase(c)
+	}
 	lab := []string{"running:" + c.Running, fmt.Sprintf("releases:%d", len(c.Rels))}
 	if c.Fault != "" {
 		lab = append(lab, "fault:"+c.Fault)
